@@ -71,12 +71,21 @@ def nth_usage(formulas):
         if z3.is_quantifier(x):
             return
         if z3.is_app(x) and (x.decl().kind() == z3.Z3_OP_SEQ_NTH or x.decl().name() in ("seq.nth_i", "seq.nth_u")):
-            use.setdefault(x.arg(0).get_id(), []).append(x.arg(1))
+            for b in if_branches(x.arg(0)):
+                use.setdefault(b.get_id(), []).append(x.arg(1))
         for c in x.children():
             walk(c)
     for f in formulas:
         walk(f)
     return use
+
+
+def if_branches(t, depth=0):
+    """t itself and, when t is an if-then-else of sequences, the sequences in its branches (recursively)."""
+    out = [t]
+    if depth < 4 and z3.is_app(t) and t.decl().kind() == z3.Z3_OP_ITE:
+        out += if_branches(t.arg(1), depth + 1) + if_branches(t.arg(2), depth + 1)
+    return out
 
 
 def seq_classes(formulas):
@@ -112,16 +121,25 @@ def quant_patterns(q):
     pats = set()
     seen = set()
 
-    def walk(x):
-        if x.get_id() in seen:
+    def has_var(t):
+        if z3.is_var(t):
+            return True
+        return any(has_var(c) for c in t.children())
+
+    def walk(x, depth):
+        key = (x.get_id(), depth)
+        if key in seen:
             return
-        seen.add(x.get_id())
+        seen.add(key)
+        if z3.is_quantifier(x):
+            walk(x.body(), depth + x.num_vars())      # de Bruijn: our variable is `depth` binders further out
+            return
         if z3.is_app(x) and (x.decl().kind() == z3.Z3_OP_SEQ_NTH or x.decl().name() in ("seq.nth_i", "seq.nth_u")):
-            if z3.is_var(x.arg(1)) and z3.get_var_index(x.arg(1)) == 0:
+            if z3.is_var(x.arg(1)) and z3.get_var_index(x.arg(1)) == depth and not has_var(x.arg(0)):
                 pats.add(x.arg(0).get_id())
         for c in x.children():
-            walk(c)
-    walk(q.body())
+            walk(c, depth)
+    walk(q.body(), 0)
     return pats
 
 
@@ -209,6 +227,7 @@ def prepare_query(reg: Registry, hyps, goal, extra_terms=(), level=0):
     derived = []            # instances, lemmas, unfoldings (deduplicated by term id)
     derived_ids = set()
     done_fold = set()
+    fold_anchors = None
     lemma_done = set()
 
     def add(t):
@@ -281,22 +300,59 @@ def prepare_query(reg: Registry, hyps, goal, extra_terms=(), level=0):
                         cands.append(t)
             for j in cands[:80]:
                 changed |= add(qf.instance(j))
+        # definitions of comprehension maps at their applications
+        if reg.map_defs:
+            for a in named_apps(reg.map_defs, ground0 + derived + [g]):
+                md = reg.map_defs[a.decl().name()]
+                changed |= add(md.length(a))
+                cands, cids = [], set()
+                for sid in (a.get_id(), a.arg(0).get_id()):
+                    for t in by_class.get(find(sid), []) + usage.get(sid, []):
+                        if t.get_id() not in cids:
+                            cids.add(t.get_id())
+                            cands.append(t)
+                for t in sk:
+                    if t.sort() == INT and t.get_id() not in cids:
+                        cids.add(t.get_id())
+                        cands.append(t)
+                for j in cands[:60]:
+                    changed |= add(md.instance(a, j))
         for lem in seq_lemmas(ground0 + derived + [g], lemma_done):
             changed |= add(lem)
+        # congruence helpers: for an asserted sequence equality a == b and an index k used with that class:
+        # a[k] == b[k], and nth distributed over if-then-else sequences (valid consequences; the sequence solver
+        # is slow to find them on its own -- measured)
+        for a_, b_ in top_level_seq_equalities(ground0 + derived):
+            ks = by_class.get(find(a_.get_id()), [])[:24]
+            for k_ in ks:
+                key = ("cong", a_.get_id(), b_.get_id(), k_.get_id())
+                if key in lemma_done:
+                    continue
+                lemma_done.add(key)
+                changed |= add(a_[k_] == b_[k_])
+                for t_ in (a_, b_):
+                    lifted = lift_nth_over_ite(t_, k_)
+                    if lifted is not None:
+                        changed |= add(t_[k_] == lifted)
         # structured members (concat / extract / unit) of a class get the lemmas for every index used with the class
-        for mid, m in find.members.items():
-            if z3.is_app(m) and m.decl().kind() in (z3.Z3_OP_SEQ_CONCAT, z3.Z3_OP_SEQ_EXTRACT, z3.Z3_OP_SEQ_UNIT):
-                for k in by_class.get(find(mid), [])[:40]:
-                    for lem in seq_lemmas([m[k]], lemma_done):
-                        changed |= add(lem)
+        for mid, m in list(find.members.items()):
+            for b in if_branches(m):
+                if z3.is_app(b) and b.decl().kind() in (z3.Z3_OP_SEQ_CONCAT, z3.Z3_OP_SEQ_EXTRACT, z3.Z3_OP_SEQ_UNIT):
+                    for k in by_class.get(find(mid), [])[:40]:
+                        for lem in seq_lemmas([b[k]], lemma_done):
+                            changed |= add(lem)
         if reg.fold_defs:
+            if fold_anchors is None:
+                fold_anchors = fold_apps(reg, ground0 + [g] + qhyps)
             for a in fold_apps(reg, ground0 + derived + [g]):
                 if a.get_id() in done_fold:
                     continue
                 if rnd >= FOLD_UNFOLD_ROUNDS:
                     continue
                 done_fold.add(a.get_id())
-                changed |= add(z3.simplify(reg.fold_defs[a.decl().name()].unfold(a)))
+                if not worth_unfolding(a, fold_anchors):
+                    continue
+                changed |= add(renth(z3.simplify(reg.fold_defs[a.decl().name()].unfold(a))))
         if not changed:
             break
     if qgoal:
@@ -304,7 +360,9 @@ def prepare_query(reg: Registry, hyps, goal, extra_terms=(), level=0):
     return ground0 + derived, g
 
 
-INST_ROUNDS = 4
+INST_ROUNDS = int(os.environ.get("PYVC_INST_ROUNDS", "4"))
+LIGHT_LABELS = ("requires:", "cinv:", "branch", "loop-index", "loop-iter", "loop-exit", "obl:", "ax:", "assume",
+                "raises", "no-raise", "map-len")
 FOLD_UNFOLD_ROUNDS = 3
 QUICK_ATTEMPT_MS = int(os.environ.get('PYVC_QUICK_MS', '10000'))
 
@@ -320,6 +378,10 @@ def seq_lemmas(formulas, done=None):
         if not z3.is_app(base):
             return
         kind = base.decl().kind()
+        if kind == z3.Z3_OP_ITE:
+            lemma_for(base.arg(1), k)
+            lemma_for(base.arg(2), k)
+            return
         key = (base.get_id(), k.get_id())
         if key in done:
             return
@@ -351,6 +413,91 @@ def seq_lemmas(formulas, done=None):
     for f in formulas:
         walk(f)
     return out
+
+
+def top_level_seq_equalities(formulas):
+    out = []
+
+    def top(f):
+        if z3.is_app(f) and f.decl().kind() == z3.Z3_OP_AND:
+            for c in f.children():
+                top(c)
+        elif z3.is_app(f) and f.decl().kind() == z3.Z3_OP_EQ and z3.is_seq(f.arg(0)) and f.arg(0).sort() != STR:
+            out.append((f.arg(0), f.arg(1)))
+    for f in formulas:
+        top(f)
+    return out
+
+
+def lift_nth_over_ite(t, k, depth=0):
+    if depth < 4 and z3.is_app(t) and t.decl().kind() == z3.Z3_OP_ITE:
+        a = lift_nth_over_ite(t.arg(1), k, depth + 1)
+        b = lift_nth_over_ite(t.arg(2), k, depth + 1)
+        return z3.If(t.arg(0), a if a is not None else t.arg(1)[k], b if b is not None else t.arg(2)[k])
+    return None
+
+
+def worth_unfolding(app, anchors):
+    """Unfold F(.., k, ..) only towards an application that occurs in the query itself: some anchor F(.., k', ..) with
+    the same other arguments and k - k' a small positive numeral; or k a small numeral (base cases)."""
+    k = z3.simplify(app.arg(1))
+    if z3.is_int_value(k):
+        return k.as_long() <= 3
+    for b in anchors:
+        if b.decl().name() != app.decl().name() or b.get_id() == app.get_id():
+            continue
+        if any(b.arg(i).get_id() != app.arg(i).get_id() for i in range(app.num_args()) if i != 1):
+            continue
+        d = z3.simplify(app.arg(1) - b.arg(1))
+        if z3.is_int_value(d) and 0 < d.as_long() <= 3:
+            return True
+    return False
+
+
+def named_apps(table, formulas):
+    seen, out = set(), []
+
+    def walk(x):
+        if x.get_id() in seen:
+            return
+        seen.add(x.get_id())
+        if z3.is_quantifier(x):
+            return
+        if z3.is_app(x) and x.decl().kind() == z3.Z3_OP_UNINTERPRETED and x.decl().name() in table:
+            out.append(x)
+        for c in x.children():
+            walk(c)
+    for f in formulas:
+        walk(f)
+    return out
+
+
+def renth(t):
+    """Undo z3.simplify's expansion of seq.nth into ite(in-range, nth_i, nth_u): keeps index terms syntactically shared."""
+    cache = {}
+
+    def go(x):
+        if x.get_id() in cache:
+            return cache[x.get_id()]
+        r = x
+        if z3.is_app(x) and x.num_args() > 0:
+            if x.decl().kind() == z3.Z3_OP_ITE and z3.is_app(x.arg(1)) and z3.is_app(x.arg(2)) \
+                    and x.arg(1).decl().name() == "seq.nth_i" and x.arg(2).decl().name() == "seq.nth_u" \
+                    and x.arg(1).arg(0).get_id() == x.arg(2).arg(0).get_id() \
+                    and x.arg(1).arg(1).get_id() == x.arg(2).arg(1).get_id():
+                r = go(x.arg(1).arg(0))[go(x.arg(1).arg(1))]
+            else:
+                kids = [go(c) for c in x.children()]
+                if any(k.get_id() != c.get_id() for k, c in zip(kids, x.children())):
+                    try:
+                        r = x.decl()(*kids)
+                    except Exception:
+                        r = x
+        elif z3.is_quantifier(x):
+            r = x
+        cache[x.get_id()] = r
+        return r
+    return go(t)
 
 
 def fold_apps(reg, formulas):
@@ -478,7 +625,7 @@ class FunctionVerifier:
                 want = self.reg.spec_eval(ex, _with_heap(s, pre_heap), c.result_is, self.reg.lambda_env(c.result_is, env))
                 goal = ex.eq(s, result, want)
             except EngineUnsupported as e:
-                goal = z3.BoolVal(False)
+                raise EngineUnsupported(f"result specification not evaluable: {e}")
             ex.oblige(s, "post[result]", goal, kind="post", serves=c.serves or ["C01"], clause="result",
                       assume_after=False)
         # raise clauses with a condition: on a normal return the condition must be false
@@ -618,12 +765,41 @@ def discharge(reg: Registry, ob: Obligation, both=False):
                     (False, 1, "class-run facts")]
     tried = []
     prepared = {}
-    for use_ext, level, label in attempts:
+    # staged hypotheses: first only the facts of the path itself (preconditions, branch conditions, class
+    # invariants, axioms, discharged safety conditions), then everything (loop invariants, callee postconditions).
+    # Proving from a subset of the hypotheses is sound.
+    light = [(l, h) for l, h in ob.hyps if l.startswith(LIGHT_LABELS)]
+    stages = []
+    if ob.kind in ("safety", "call.pre") and len(light) < len(ob.hyps):
+        stages.append(("path-facts", light))
+    # inside nested loops: the path facts plus everything since the head of the innermost loop
+    last = max((i for i, (l, _) in enumerate(ob.hyps) if l == "loop-index"), default=-1)
+    if last > 0:
+        inner = [(l, h) for i, (l, h) in enumerate(ob.hyps) if i >= last or l.startswith(LIGHT_LABELS)]
+        if len(inner) < len(ob.hyps) and len(inner) > len(light):
+            stages.append(("innermost-loop", inner))
+    # invariants written per aspect: keep only the invariant conjuncts that serve a property the goal serves
+    def related(label):
+        if not label.startswith("inv:") or "|" not in label:
+            return True
+        tags = set(label.split("|", 1)[1].split(","))
+        return bool(tags & set(ob.serves)) or not tags
+    aspect = [(l, h) for l, h in ob.hyps if related(l)]
+    if len(aspect) < len(ob.hyps):
+        stages.append(("same-aspect", aspect))
+    stages.append(("all", ob.hyps))
+    plan = []
+    for sname, shyps in stages:
+        for use_ext, level, label in attempts:
+            plan.append((sname, shyps, use_ext, level, label if sname == "all" else f"{label}/{sname}"))
+    for sname, shyps, use_ext, level, label in plan:
         if use_ext and eg is None:
+            continue
+        if sname not in ("all", "same-aspect") and level > 0:
             continue
         g0 = eg if use_ext else ob.goal
         try:
-            hyps, goal = prepare_query(reg, ob.hyps, g0, level=level)
+            hyps, goal = prepare_query(reg, shyps, g0, level=level)
         except Exception as e:  # pragma: no cover
             tried.append(f"{label}: prepare failed {e!r}")
             continue
@@ -637,7 +813,7 @@ def discharge(reg: Registry, ob: Obligation, both=False):
         if r is None or (r["result"] == "unknown" and r2["result"] == "refuted"):
             r = r2
             r["tactic"] = label
-    if r is not None and r["result"] == "unknown" and prepared:
+    if r is not None and r["result"] == "unknown" and prepared and os.environ.get("PYVC_FAST") != "1":
         # nothing decided within the quick budget: full budget on every prepared form, cvc5 for z3's unknowns
         for label, (hyps, goal) in prepared.items():
             r2 = solve.check(hyps, goal, both=both)
@@ -661,6 +837,11 @@ def ext_goal(goal):
     changed = [False]
 
     def tr(t):
+        if z3.is_quantifier(t) and t.is_forall():
+            vs = [fresh(t.var_sort(i), "e_" + t.var_name(i)) for i in range(t.num_vars())]
+            body = z3.substitute_vars(t.body(), *reversed(vs))
+            nb = tr(body)
+            return z3.ForAll(vs, nb)
         if z3.is_app(t) and t.sort() == BOOL:
             k = t.decl().kind()
             if k == z3.Z3_OP_AND:
@@ -709,9 +890,9 @@ def verify_function(prog: Program, reg: Registry, qualname: str, only_serves=Non
         rep["error"] = f"{type(e).__name__}: {e}\n" + traceback.format_exc()[-1500:]
         rep["wall_s"] = round(time.time() - t0, 3)
         return rep
-    for ob in obligations:
-        if only_serves is not None and not (set(ob.serves) & set(only_serves)):
-            continue
+    todo = [ob for ob in obligations if only_serves is None or (set(ob.serves) & set(only_serves))]
+
+    def one(ob):
         r = discharge(reg, ob, both=both)
         r.update({"kind": ob.kind, "serves": ob.serves, "lineno": ob.lineno, "boundary": ob.boundary,
                   "clause": ob.clause})
@@ -720,6 +901,55 @@ def verify_function(prog: Program, reg: Registry, qualname: str, only_serves=Non
         if r["result"] != "proved":
             r["goal"] = str(ob.goal)[:600]
             r["hyp_labels"] = [lab for lab, _ in ob.hyps][-25:]
-        rep["obligations"].append(r)
+        return r
+
+    nproc = int(os.environ.get("PYVC_OB_PROCS", "1"))
+    if nproc > 1 and len(todo) > 6:
+        rep["obligations"] = fork_map(one, todo, nproc)
+    else:
+        rep["obligations"] = [one(ob) for ob in todo]
     rep["wall_s"] = round(time.time() - t0, 3)
     return rep
+
+
+def fork_map(fn, items, nproc):
+    """Run fn over items in forked children (the z3 terms live in this process image; results come back as JSON)."""
+    import tempfile
+    n = min(nproc, len(items))
+    files, pids = [], []
+    for w in range(n):
+        f = tempfile.NamedTemporaryFile("w", delete=False, suffix=".json", dir="/tmp")
+        f.close()
+        files.append(f.name)
+        pid = os.fork()
+        if pid == 0:
+            out = []
+            try:
+                for i in range(w, len(items), n):
+                    try:
+                        out.append((i, fn(items[i])))
+                    except Exception as e:  # pragma: no cover
+                        out.append((i, {"name": items[i].name, "result": "unknown", "backend": "none",
+                                        "reason": f"worker error {type(e).__name__}: {e}", "time_s": 0.0,
+                                        "kind": items[i].kind, "serves": items[i].serves}))
+                with open(files[w], "w") as fh:
+                    json.dump(out, fh, default=str)
+            finally:
+                os._exit(0)
+        pids.append(pid)
+    for pid in pids:
+        os.waitpid(pid, 0)
+    res = [None] * len(items)
+    for fnm in files:
+        try:
+            with open(fnm) as fh:
+                for i, r in json.load(fh):
+                    res[i] = r
+        except Exception:
+            pass
+        os.unlink(fnm)
+    for i, r in enumerate(res):
+        if r is None:
+            res[i] = {"name": items[i].name, "result": "unknown", "backend": "none", "reason": "worker died",
+                      "time_s": 0.0, "kind": items[i].kind, "serves": items[i].serves}
+    return res
